@@ -246,6 +246,8 @@ func init() {
 	})
 }
 
+var c10overrideSrc, c10overrideBad string
+
 func runC10(w *fw.W) {
 	var ip *interp.Interp
 	var ops []*c10op
@@ -254,6 +256,14 @@ func runC10(w *fw.W) {
 			return
 		}
 		ip = interp.New()
+		// before any plain arithmetic: values of Int / Float descendants that define the operators themselves are the first
+		// receivers of every operator in this process (what they define is theirs alone; plain ints keep Int's arithmetic)
+		c10overrideSrc = "QI := Int.bear({'+: m{|o| 255}, '-: m{|o| 255}, '*: m{|o| 255}, '/: m{|o| 255}, '//: m{|o| 255}, '%: m{|o| 255}, '**: m{|o| 255}, '<=>: m{|o| 255}, '-%: m{255}})\n" +
+			"QF := Float.bear({'+: m{|o| 255}, '*: m{|o| 255}})\n" +
+			"q := QI.new(7)\n[q + 1, q - 1, q * 2, q / 2, q // 2, q % 2, q ** 2, q <=> 1, -q, QF.new(1.5) + 1, QF.new(1.5) * 2]"
+		if o := ip.Run(c10overrideSrc, interp.Options{}); !o.OK() || o.Inspect != "[255, 255, 255, 255, 255, 255, 255, 255, 255, 255, 255]" {
+			c10overrideBad = o.Outcome()
+		}
 		mk := func(name, infix, prop string) *c10op {
 			o := &c10op{name: name}
 			if infix != "" {
@@ -335,6 +345,13 @@ func runC10(w *fw.W) {
 		w.Begin("zero divisors of every int-like kind", nil)
 		var vs violSet
 		n := 0
+		if c10overrideBad != "" {
+			vs.add("C10|operator-override|descendant-operators-not-used", "operators defined by an Int/Float descendant: "+c10overrideSrc+" → "+c10overrideBad, c10overrideSrc)
+		}
+		// and again now that plain ints have been the receivers of every operator
+		if o := ip.Run("7 + 1\n7 - 1\n7 * 2\n7 // 2\n"+c10overrideSrc, interp.Options{}); !o.OK() || o.Inspect != "[255, 255, 255, 255, 255, 255, 255, 255, 255, 255, 255]" {
+			vs.add("C10|operator-override|descendant-operators-not-used-after-plain-ints", "operators defined by an Int/Float descendant, after plain arithmetic: "+o.Outcome(), c10overrideSrc)
+		}
 		zeros := []string{"0", "false", "Int.bear.new(0)", "{|| z := Int.bear; z.new(3) - z.new(3)}()", "(5 - 5)", "(0 * 7)", "-0", "[].len", "Int.bear({k: 1}).new(0)", "\"0\".I", "[0][0]"}
 		nums := []string{"7", "-7", "0", "9223372036854775807", "Int.bear.new(6)", "true"}
 		for _, z := range zeros {
